@@ -20,7 +20,8 @@ ASSUMPTIONS = ["ASCII input strings; finite numerals with |exponent| <= 20"]
 UNITS = ["", "px", "in", "mm", "cm", "pt", "pc", "Q", "q", "%"]
 UCODE = {"": 0, "px": 0, "in": 1, "mm": 2, "cm": 3, "pt": 4, "pc": 5, "Q": 6, "q": 6, "%": 7}
 WS = ["", "", " ", "  ", "\t", "\n", " \r\n", "\x0b", "\x0c", "\x1c", "\x1f "]
-BAD = ["", " ", "mm", "px", "%", "12em", "3ex", "1.5 em", "abc", "--5mm", "+-5", "e5", "1e", "1e+", ".", "+.", "5 mm", "5m m", "1,5mm", "0x10", "1.2.3", "5pxx", "12 px", "1e5e5", "5Px", "5MM", "5IN"]
+BAD = ["", " ", "mm", "px", "%", "12em", "3ex", "1.5 em", "abc", "--5mm", "+-5", "e5", "1e", "1e+", ".", "+.", "5 mm", "5m m", "1,5mm", "0x10", "1.2.3", "5pxx", "12 px", "1e5e5", "5Px", "5MM", "5IN",
+       "auto\nauto", "5\nem", "1\n2mm", "a\nb", "mm\n5", "5\nmm", "1e\n5", "12\r\nem", "5\x0bmm", "1 2"]          # line breaks and other white space inside the text
 
 def _numeral(rng):
     sign = rng.choice(["", "", "+", "-"])
@@ -70,6 +71,10 @@ def generate(rng, tier):
         d = F(rng.choice([0.0, 96.0, 1.0, rng.uniform(-1e4, 1e4), float(rng.randint(-10**6, 10**6))]))
         uu = rng.choice(UNITS)
         cases.append({"kind": "b", "d": d, "u": uu, "family": "back:" + (uu or "none")})
+    for s0 in BAD:          # every malformed text once, through the parser, the converter and the attribute reader
+        cases.append({"kind": "p", "s": s0, "family": "malformed/systematic"})
+        cases.append({"kind": "u", "s": s0, "ref": None, "family": "malformed/systematic"})
+        cases.append({"kind": "g", "attr": s0, "dflt": F(100), "family": "malformed/systematic/getLength"})
     cases.append({"kind": "g", "attr": None, "dflt": F(7), "family": "getLength/absent"})
     cases.append({"kind": "u", "s": "50%", "ref": F(0), "family": "unit:%/ref0"})
     return cases
